@@ -195,11 +195,22 @@ func mutatesReceiver(fn *ssa.Function, depth int) bool {
 	mutRecvMemo[fn] = false
 	recv := fn.Params[0]
 	derived := map[ssa.Value]bool{recv: true}
+	cells := map[*ssa.Alloc]bool{} // locals the receiver (or something reached from it) was spilled into, e.g. because a closure captures it
 	changed := true
 	for changed {
 		changed = false
 		for _, b := range fn.Blocks {
 			for _, in := range b.Instrs {
+				if st, isSt := in.(*ssa.Store); isSt && derived[st.Val] {
+					if al, isAl := st.Addr.(*ssa.Alloc); isAl && !cells[al] {
+						cells[al], changed = true, true
+					}
+				}
+				if ld, isLd := in.(*ssa.UnOp); isLd && ld.Op == token.MUL && !derived[ld] {
+					if al, isAl := ld.X.(*ssa.Alloc); isAl && cells[al] {
+						derived[ld], changed = true, true
+					}
+				}
 				v, ok := in.(ssa.Value)
 				if !ok || derived[v] {
 					continue
@@ -577,6 +588,20 @@ func consensusEntries(p *Prog) []*ssa.Function {
 	w := BuildWire(p)
 	for _, fns := range upgradeHandlerFns(p, w) {
 		out = append(out, fns...)
+	}
+	// every function of the application with the signature of an upgrade handler (a wrapper around the descriptors' handlers runs
+	// inside the upgrade block too)
+	for _, f := range p.ModFuncs {
+		if f.Blocks == nil || p.IsGenerated(f) || !(InPkgs(f, "app") || InPkgs(f, "x")) {
+			continue
+		}
+		sig := f.Signature
+		if sig.Params().Len() == 3 && sig.Results().Len() == 2 &&
+			strings.HasSuffix(sig.Params().At(0).Type().String(), "cosmos-sdk/types.Context") &&
+			strings.HasSuffix(sig.Params().At(1).Type().String(), "x/upgrade/types.Plan") &&
+			strings.HasSuffix(sig.Params().At(2).Type().String(), "types/module.VersionMap") {
+			out = append(out, f)
+		}
 	}
 	// methods of module types handed to the SDK as interfaces (parameter stores, hooks, decorators): those that take an
 	// sdk.Context are called while blocks are processed
